@@ -18,6 +18,7 @@ RULE = (
     "successful link change (enumerated single steps: the call changed a link or raised after a hook ran)."
     " Also: interrupt-like BaseExceptions among the fault plans; chains deeper than the interpreter's recursion limit (upward-looking attributes, Walker, commonancestors, four structural calls) in lock-step."
     ' Also: a class pair overriding the public children property, sparse reads, iter_path_reverse consumed step by step while nodes move.'
+    ' Rounds 11-14: run-time config switch, sealed nodes, recursion band, classes overriding iter_path_reverse/__str__.'
 )
 ASSUMPTIONS = [
     "pure differential oracle: no reference model, the two mixins are compared with each other",
